@@ -14,6 +14,7 @@ import (
 
 	"github.com/cloudwego/hertz/pkg/app"
 	"github.com/cloudwego/hertz/pkg/app/middlewares/server/recovery"
+	"github.com/cloudwego/hertz/pkg/common/config"
 	"github.com/cloudwego/hertz/pkg/network"
 	"github.com/cloudwego/hertz/pkg/protocol"
 	"github.com/cloudwego/hertz/pkg/protocol/http1/resp"
@@ -33,7 +34,7 @@ func init() {
 			"one P makes sync.Pool hand the same object back unless the gc fault fired; episodes where reuse could not be verified count as trivial",
 			"data races between a handler that kept a context and its next user are not covered (serialised execution)",
 		},
-		RequiredProbes: []string{"probe-same-conn", "probe-new-conn", "reuse-verified", "outcome-ok", "outcome-panic", "outcome-malformed", "outcome-toolarge", "outcome-rst-body", "outcome-close", "outcome-hijack-write-error", "outcome-write-error", "acquire-roundtrip", "mutators-run", "probe-unmatched", "outcome-chunked-writer", "outcome-stream-close-error", "probe-chunked-writer", "gc"},
+		RequiredProbes: []string{"probe-same-conn", "probe-new-conn", "reuse-verified", "outcome-ok", "outcome-panic", "outcome-malformed", "outcome-toolarge", "outcome-rst-body", "outcome-close", "outcome-hijack-write-error", "outcome-write-error", "acquire-roundtrip", "mutators-run", "probe-unmatched", "outcome-chunked-writer", "outcome-stream-close-error", "probe-chunked-writer", "gc", "response-default-options"},
 	}
 }
 
@@ -306,13 +307,21 @@ func RunC09(ep *core.Episode) {
 	}
 	ep.ProbeN("alphabet-mutators", 0)
 	stream := tp.Chance("stream", 1, 4)
+	noDate, noCT, noServer := false, false, false
+	if tp.Chance("respopts", 1, 3) {
+		noDate, noCT, noServer = tp.Choose("nodate", 2) == 1, tp.Choose("noct", 2) == 1, tp.Choose("noserver", 2) == 1
+		ep.Probe("response-default-options")
+	}
 	probeStyle := tp.Weighted("probestyle", []int{3, 1, 1})
 	if probeStyle == 1 {
 		ep.Probe("probe-chunked-writer")
 	}
 	mkEngine := func(name string, prog func(ctx *app.RequestContext), dump *[]string, ctxPtr **app.RequestContext) (*Srv, *core.Net) {
 		nw := core.NewNet(ep)
-		srv := NewSrv(ep, nw, SrvOpts{BufSize: 4096, MaxBody: 3000, Stream: stream})
+		srv := NewSrv(ep, nw, SrvOpts{BufSize: 4096, MaxBody: 3000, Stream: stream, Configure: func(o *config.Options) {
+			// options the server applies to the response object of every request
+			o.NoDefaultDate, o.NoDefaultContentType, o.NoDefaultServerHeader = noDate, noCT, noServer
+		}})
 		srv.Eng.Use(recovery.Recovery(recovery.WithRecoveryHandler(func(c context.Context, ctx *app.RequestContext, err interface{}, stack []byte) {
 			ctx.AbortWithStatus(500)
 		})))
